@@ -80,6 +80,7 @@ type Ctx struct {
 	// Abort is set by Main: flush, write the result and exit (used when the code under test hangs).
 	Abort func()
 
+	inGuard bool
 	res     Result
 	cases   []Case
 	seen    map[[32]byte]bool
@@ -138,7 +139,7 @@ func (c *Ctx) Add(cs Case) {
 		c.res.Samples = append(c.res.Samples, map[string]any{"case": cs.Name, "ops": trunc(cs.Ops, 12), "impl": trunc(cs.Impl, 12)})
 	}
 	c.cases = append(c.cases, cs)
-	if len(c.cases) >= 20000 {
+	if len(c.cases) >= 20000 && !c.inGuard { // never run the oracle on the watchdog's clock
 		c.Flush()
 	}
 }
@@ -277,6 +278,13 @@ func B(b bool) string {
 // escaping the case is recorded likewise (key <where>-panic).
 func (c *Ctx) Guard(prop, where string, input any, limit time.Duration, fn func()) {
 	done := make(chan any, 1)
+	c.inGuard = true
+	defer func() {
+		c.inGuard = false
+		if len(c.cases) >= 5000 {
+			c.Flush()
+		}
+	}()
 	go func() {
 		defer func() {
 			if x := recover(); x != nil {
